@@ -130,4 +130,81 @@ Section Sched.
     exists [LReturn 0 (MF e1); LReturn 1 (MF e2); LSend 0]. eexists. split; [reflexivity|].
     split; reflexivity.
   Qed.
+  (* ---- a timeout / cancellation that fires once every goroutine has delivered ---- *)
+  Definition is_sent (w : wst (msg V)) : bool := match w with Sent _ _ => true | _ => false end.
+  Definition all_sent (s : st (msg V)) : Prop := forallb is_sent (ws _ s) = true.
+  Definition not_timeout (l : label (msg V)) : bool := match l with LTimeout => false | _ => true end.
+
+  (* equal up to the `cancelled` flag *)
+  Definition sim (a b : st (msg V)) : Prop :=
+    ws _ a = ws _ b /\ qp _ a = qp _ b /\ qf _ a = qf _ b /\ got _ a = got _ b /\
+    iters _ a = iters _ b /\ fin _ a = fin _ b.
+
+  Lemma sent_nth w i x : forallb is_sent w = true -> nth_error w i = Some x -> is_sent x = true.
+  Proof.
+    intros H E. rewrite forallb_forall in H. apply H. eapply nth_error_In; eauto.
+  Qed.
+
+  (* once every goroutine has sent, a step other than the timeout does not look at the
+     cancellation flag, and the timeout changes nothing but that flag *)
+  Lemma step_sim n a b l a' :
+    all_sent a -> sim a b -> pm_step n a l = Some a' ->
+    all_sent a' /\
+    if not_timeout l then exists b', pm_step n b l = Some b' /\ sim a' b' else sim a' b.
+  Proof.
+    unfold all_sent, sim, pm_step. intros Hs Hsim H.
+    destruct a as [wa qpa qfa ga ia fa ca], b as [wb qpb qfb gb ib fb cb]. simpl in *.
+    destruct Hsim as (E1 & E2 & E3 & E4 & E5 & E6). subst wb qpb qfb gb ib fb.
+    destruct l as [i m|i|i|c| | |]; simpl in H |- *.
+    - destruct (nth_error wa i) as [w|] eqn:E; [|discriminate].
+      pose proof (sent_nth _ _ _ Hs E) as Hw. destruct w; simpl in Hw; discriminate.
+    - destruct (nth_error wa i) as [w|] eqn:E; [|discriminate].
+      pose proof (sent_nth _ _ _ Hs E) as Hw. destruct w; simpl in Hw; discriminate.
+    - destruct (nth_error wa i) as [w|] eqn:E; [|discriminate].
+      pose proof (sent_nth _ _ _ Hs E) as Hw. destruct w; simpl in Hw; discriminate.
+    - unfold collecting in *. simpl in *.
+      match type of H with (if ?cnd then _ else _) = _ => destruct cnd end; [|discriminate].
+      destruct c.
+      + destruct qpa as [|m r]; [discriminate|]. inversion H; subst; simpl.
+        split; [exact Hs|]. eexists. split; [reflexivity|]. simpl. repeat split; reflexivity.
+      + destruct qfa as [|m r]; [discriminate|]. inversion H; subst; simpl.
+        split; [exact Hs|]. eexists. split; [reflexivity|]. simpl. repeat split; reflexivity.
+    - discriminate.
+    - destruct ca; [discriminate|]. inversion H; subst; simpl.
+      split; [exact Hs|]. repeat split; reflexivity.
+    - match type of H with (if ?cnd then _ else _) = _ => destruct cnd end; [|discriminate].
+      inversion H; subst; simpl.
+      split; [exact Hs|]. eexists. split; [reflexivity|]. simpl. repeat split; reflexivity.
+  Qed.
+
+  Lemma run_sim n ls : forall a b a',
+    all_sent a -> sim a b -> pm_run n a ls = Some a' ->
+    exists b', pm_run n b (filter not_timeout ls) = Some b' /\ sim a' b'.
+  Proof.
+    unfold pm_run. induction ls as [|l ls IH]; simpl; intros a b a' Hs Hsim H.
+    - inversion H; subst. exists b. auto.
+    - destruct (step (msg V) n route (MF ce) never_early false a l) as [a0|] eqn:E; [|discriminate].
+      destruct (step_sim n a b l a0 Hs Hsim E) as [Hs0 Hl].
+      destruct (not_timeout l).
+      + destruct Hl as [b0 [Eb Hsim0]]. simpl. unfold pm_step in Eb. rewrite Eb.
+        apply (IH a0 b0 a' Hs0 Hsim0 H).
+      + apply (IH a0 b a' Hs0 Hl H).
+  Qed.
+
+  Lemma sim_refl a : sim a a.
+  Proof. unfold sim. repeat split; reflexivity. Qed.
+
+  (* From a state in which every goroutine has delivered its message, what parallelMerge
+     returns does not depend on whether, where or how often the context is cancelled / its
+     deadline fires in the rest of the schedule: the schedule with those events removed
+     runs too, receives the same messages in the same order and returns the same result. *)
+  Theorem timeout_after_sends_irrelevant n s ls s' :
+    all_sent s -> pm_run n s ls = Some s' ->
+    exists s'', pm_run n s (filter not_timeout ls) = Some s'' /\
+      got _ s'' = got _ s' /\ ws _ s'' = ws _ s' /\ fin _ s'' = fin _ s' /\
+      pm_result s'' = pm_result s'.
+  Proof.
+    intros Hs H. destruct (run_sim n ls s s s' Hs (sim_refl s) H) as [b [Hb (E1 & E2 & E3 & E4 & E5 & E6)]].
+    exists b. split; [exact Hb|]. unfold pm_result. rewrite <- E1, <- E4, <- E6. repeat split; reflexivity.
+  Qed.
 End Sched.
